@@ -708,3 +708,47 @@ pub fn sess_profile(r: &mut Rng, name: &str, count: usize) -> Vec<String> {
     let p = profile(name);
     (0..count).map(|_| gen_case(r, &p).line()).collect()
 }
+
+/// Systematic fault sweep: for a base program with an all-ok script, one variant per (I/O index k, fault kind):
+/// the first k I/O calls succeed (whole buffers, or `chunk` bytes at a time), call k gets the fault.
+/// Every variant ends with a healthy reconnect to a conformant broker, a QoS 1 publish and a poll (C12).
+pub fn sess_sweep(r: &mut Rng, name: &str, count: usize) -> Vec<String> {
+    let mut p = profile(name);
+    p.fault = (0, 1);
+    p.script_len = (0, 0);
+    p.conns = (1, 2);
+    p.ops = (2, 7);
+    let mut out = Vec::new();
+    while out.len() < count {
+        let mut case = gen_case(r, &p);
+        // probes on the same handle, then a healthy reconnect
+        case.actions.push(a_simple(POLL));
+        case.actions.push(a_publish(b"probe", None, &[], 1, b"p", false));
+        case.actions.push(a_simple(DRIVE));
+        case.actions.push(a_disconnect(None, None));
+        case.actions.push(a_subscribe(&[], &[(b"x", 0, false, false, 0)]));
+        case.actions.push(a_num(12, 1));
+        case.actions.push(a_connect(&[(0, connack(true, 0, &[]))]));
+        case.actions.push(a_publish(b"after", None, &[], 1, b"q", false));
+        case.actions.push(a_simple(POLL));
+        case.actions.push(a_simple(POLL));
+        let chunk = *r.pick(&[1_000_000u64, 1_000_000, 1, 3]);
+        case.script = Vec::new();
+        let base = crate::run_line(&case.line());
+        let n = base.split('|').filter(|l| l.starts_with("w ") || l.starts_with("r ") || l.starts_with("f ")).count();
+        out.push(case.line());
+        let step = (n / 24).max(1);
+        let mut k = r.below(step as u64) as usize;
+        while k < n && out.len() < count {
+            for kind in [1u64, 2, 3] {
+                let mut c2 = Case { cfg: case.cfg.clone(), actions: case.actions.clone(), script: Vec::new() };
+                c2.script = (0..k).map(|_| (0, chunk)).collect();
+                c2.script.push((kind, 0));
+                out.push(c2.line());
+            }
+            k += step;
+        }
+    }
+    out.truncate(count);
+    out
+}
